@@ -50,7 +50,19 @@ func propWalletP2PK(t *rapid.T) {
 	if err != nil {
 		t.Skipf("send failed: %v", err)
 	}
-	tok, err := cashu.NewTokenV4(append(cashu.Proofs{}, proofs...), url, cashu.Sat, rapid.Bool().Draw(t, "dleq"))
+	// the mint may rotate its keyset between locking and redeeming: the receiving wallet (loaded before) discovers the
+	// rotation inside the receive. (Tokens of a rotated-out keyset are built without DLEQ: Receive checks DLEQ proofs
+	// against the active keyset only - an observation outside this property.)
+	withDLEQ := rapid.Bool().Draw(t, "dleq")
+	rotated := rapid.IntRange(0, 2).Draw(t, "rotate_before_receive") == 0
+	if rotated {
+		if _, err := e.Mints[0].Mint.RotateKeyset(fee); err != nil {
+			t.Fatalf("rotate: %v", err)
+		}
+		e.Mints[0].RefreshKeysets()
+		withDLEQ = false
+	}
+	tok, err := cashu.NewTokenV4(append(cashu.Proofs{}, proofs...), url, cashu.Sat, withDLEQ)
 	if err != nil {
 		t.Fatalf("token: %v", err)
 	}
@@ -58,11 +70,15 @@ func propWalletP2PK(t *rapid.T) {
 	cls := fmt.Sprintf("wallet_p2pk|sig_all=%v|fees=%v|fee=%d", sigAll, inclFees, fee)
 	rec.NonTrivial(cls + fmt.Sprint(amount))
 	rec.Class(cls)
+	if rotated {
+		rec.Class("wallet_receive_discovers_rotation")
+	}
 	dec, _ := cashu.DecodeToken(str)
 	e.Cur = "carol"
 	if got, err := carol.W.Receive(dec, false); err == nil {
 		violate(t, "wallet|locked_token_redeemed_by_wrong_wallet", "carol received %d from a token locked to bob", got)
 	}
+	// (carol's attempt does not touch bob's wallet: after a rotation bob's receive is still his first contact)
 	dec, _ = cashu.DecodeToken(str)
 	e.Cur = "bob"
 	got, err := bob.W.Receive(dec, false)
